@@ -65,7 +65,7 @@ CLAIMS.update({
     technique="Coq proof (per-step lemmas + counting invariant) + differential bench correspondence + closure oracle",
     ref="DESIGN.md §5 C03"),
  "C04": dict(
-    text="Coq theorems: Ok iff every mailbox is empty (all sent messages consumed); in a quiescent failure-free state with empty mailboxes no task is in the middle of a send (c04_no_half_done_send, all benches with capacities >= 1); a run changes neither time nor termination nor clock position (c04_run_frame); computed schedule-independence instances. Tie: every bench on the single-threaded executor and on 2,3,4,8,16 workers must equal the model's per-command multiset of handler invocations, results, times, sink contents; oracle 'Ok => everything sent was processed'; wide benches (129..300 models, more than one injector bucket); runs with seeded delays at 15 protocol points of the multi-threaded executor (guarded hooks nexosim::verif). Pool protocol (Pool.v): for the barrier program generated from the current mt_executor.rs (translator T3, obligation c04_pool_source_is_proved_program + call-order obligation), every pool size, every interleaving at one-shared-access granularity and every task behaviour, Executor::run reads the idle pool only when no task is left in the injector, a local queue, a fast slot or a worker's hands and no task is running (c04_pool_run_returns_only_at_quiescence, c04_pool_idle_means_quiescent, c04_pool_work_only_on_active_workers, c04_pool_no_assert_failure), and whenever run() is blocked in park() without a pending unpark some worker can perform its next step (c04_pool_run_never_blocked_with_all_workers_blocked: deadlock-freedom of the parking protocol).",
+    text="Coq theorems: Ok iff every mailbox is empty (all sent messages consumed); in a quiescent failure-free state with empty mailboxes no task is in the middle of a send (c04_no_half_done_send, all benches with capacities >= 1); a run changes neither time nor termination nor clock position (c04_run_frame); computed schedule-independence instances. Tie: every bench on the single-threaded executor and on 2,3,4,8,16 workers must equal the model's per-command multiset of handler invocations, results, times, sink contents; oracle 'Ok => everything sent was processed'; wide benches (129..300 models, more than one injector bucket); runs with seeded delays at 15 protocol points of the multi-threaded executor (guarded hooks nexosim::verif). Pool protocol (Pool.v): for the barrier program generated from the current mt_executor.rs (translator T3, obligation c04_pool_source_is_proved_program + call-order obligation), every pool size, every interleaving at one-shared-access granularity and every task behaviour, Executor::run reads the idle pool only when no task is left in the injector, a local queue, a fast slot or a worker's hands and no task is running (c04_pool_run_returns_only_at_quiescence, c04_pool_every_task_was_run = every task spawned or woken has been run, tasks being conserved by every step for any barrier (c04_pool_tasks_conserved), c04_pool_idle_means_quiescent, c04_pool_work_only_on_active_workers, c04_pool_no_assert_failure), and whenever run() is blocked in park() without a pending unpark some worker can perform its next step (c04_pool_run_never_blocked_with_all_workers_blocked: deadlock-freedom of the parking protocol).",
     note=SIMNOTE + "Partial: 'does not block forever' is proved as deadlock-freedom of the model (no reachable state with the main thread and every worker blocked), not as termination (fairness and terminating tasks are assumed), and is otherwise observed on the real multi-threaded runs with delays (watchdog); Pool.v is sequentially consistent and over-approximates search/steal/activation (see its header); confluence proved only as instances; a task waiting for a query reply at quiescence is excluded by correspondence, not by a theorem.",
     technique="Coq proof (quiescence lemma + frame; inductive invariant of the worker-pool protocol on the barrier program translated from the source) + cross-executor differential execution (1..16 threads, seeded delays)",
     ref="DESIGN.md §5 C04"),
